@@ -529,7 +529,7 @@ func checkC19Bad(c *c19BadCase) error {
 
 func TestC19(t *testing.T) {
 	runWitnesses(t, "C19")
-	runProp(t, "fill", 5000, 300000, func(t *rapid.T) {
+	runProp(t, "fill", 40000, 300000, func(t *rapid.T) {
 		ev := addNAttrs(t, xmodel.Gen(t, c19Doc()))
 		c := &c19Case{Events: ev}
 		switch rapid.IntRange(0, 3).Draw(t, "targetKind") {
@@ -560,7 +560,7 @@ func TestC19(t *testing.T) {
 		_ = xast.Num
 		c19Fill.run(t, c)
 	})
-	runProp(t, "unsupported", 2000, 50000, func(t *rapid.T) {
+	runProp(t, "unsupported", 16000, 64000, func(t *rapid.T) {
 		kinds := []string{"nil", "non-pointer struct", "nil pointer", "pointer to nil pointer", "map", "array", "chan", "func", "2-D slice", "unexported tagged field", "interface field", "map field", "array field", "int", "string",
 			"pointer to nil slice pointer", "pointer to pointer to nil struct pointer", "pointer to nil pointer to slice of structs"}
 		c := &c19BadCase{Events: xmodel.Gen(t, c19Doc()), Target: kinds[rapid.IntRange(0, len(kinds)-1).Draw(t, "kind")],
